@@ -27,6 +27,11 @@ STRUCT = ("get", "zip", "find", "enumerate", "next", "values", "keys", "from_utf
           "from_f64", "with_capacity", "reserve", "extend", "extend_from_slice", "split_first", "split_at", "copy_from_slice", "is_null")
 
 
+# serde_json::Value { Null, Bool, Number, String, Array, Object }; a Number is always followed by the numeric accessor that matters
+JSON_KIND_TOKEN = {0: "json:Null?", 1: "json:Bool", 2: None, 3: "json:String", 4: "json:Array", 5: "json:Object"}
+ACCESSOR_KIND = {"as_bool": "json:Bool", "as_str": "json:String", "as_array": "json:Array", "as_object": "json:Object", "as_null": "json:Null?"}
+
+
 def inline_policy(fn, ev):
     """private helpers of the dynamic codec are analysed in place (extracting or inlining one does not change the tokens); the integer
     helpers proven by BIT and the recursive walk itself stay calls"""
@@ -57,6 +62,7 @@ class Arms:
         # the float byte conversions stay visible as calls here: they are tokens of the arm abstraction
         keep = {k: (lambda *a: NotImplemented) for k in sym.MODELS if k.startswith(("core::f32::", "core::f64::")) and "_bytes" in k}
         eng = sym.Engine(F, inline=inline_policy, max_visits=3, max_paths=20000, max_steps=40000, models=keep)
+        eng.discr_events = lambda ty: ty.endswith("serde_json::Value") or ty.endswith("serde_json::value::Value")
         self.paths = [p for p in eng.run(self.fn) if p.status != "infeasible"]
         self.truncated = eng.truncated
         self.arms = {}
@@ -95,11 +101,26 @@ class Arms:
 
     def tokens(self, p):
         out = []
-        for e in tbl.residual_calls(p):
-            t = self.token(p, e)
-            if t:
+        for e in p.events:
+            if e["k"] == "discr":
+                t = self.kind_token(p, e)
+            elif e["k"] == "call" and not e.get("modelled") and not e.get("inlined"):
+                t = self.token(p, e)
+            else:
+                t = None
+            if t and not (t.startswith("json:") and out and out[-1] == t):
                 out.append(t)
         return out
+
+    def kind_token(self, p, e):
+        """`match value { Value::String(s) => .. }`: which JSON kind this path requires (same token as the accessor form `as_str()`)"""
+        atom, flip = sym.tag_atom(e["d"])
+        f = p.tagfacts.get(atom)
+        if isinstance(f, int):
+            return JSON_KIND_TOKEN.get(f)
+        if isinstance(f, tuple) and set(f[1]) == {0}:
+            return "json:Null?"
+        return None
 
     def token(self, p, e):
         key = e["key"] or ""
@@ -134,7 +155,12 @@ class Arms:
                     return ("R%d" % N) if info else "R?(%s)" % nm
             return "local:" + nm
         if "serde_json" in key:
-            if nm in ("as_bool", "as_i64", "as_u64", "as_f64", "as_str", "as_array", "as_object", "is_null"):
+            if nm in ACCESSOR_KIND:
+                # the kind test: a token only where the path requires that kind (the accessor returned Some)
+                return ACCESSOR_KIND[nm] if p.tagfacts.get(("tag", e["result"])) == 1 else None
+            if nm == "is_null":
+                return "json:Null?"
+            if nm in ("as_i64", "as_u64", "as_f64"):
                 return "json:" + nm
             if nm in ("from_f64",):
                 return "std:from_f64"
@@ -193,11 +219,22 @@ def schema_arg_path(a):
     return tuple(x for x in fp[1:] if x not in ("0",) or True)
 
 
-def json_ctor(v):
+def json_ctor(v, p=None):
     """serde_json::Value constructor of a returned value term"""
     v = norm(v)
     if v[0] == "agg" and v[1] == "adt" and (v[2] or "").endswith("serde_json::value::Value"):
         return v[3]
     if v[0] == "getf" and v[2] == "0" and v[1][0] == "okval" and v[1][1][0] == "call" and v[1][1][2] == "de::deserialize":
         return "rec"
+    if v[0] == "call" and p is not None and (v[2] or "").endswith("convert::From::from"):
+        e = tbl.event_by_id(p, v[1])
+        ga = ((e or {}).get("callee") or {}).get("args") or []
+        if len(ga) == 2 and ga[0] in ("serde_json::Value", "serde_json::value::Value"):
+            src = ga[1].replace("&", "").strip()
+            if src in ("i8", "i16", "i32", "i64", "isize", "u8", "u16", "u32", "u64", "usize", "serde_json::Number", "serde_json::number::Number"):
+                return "Number"     # serde_json: From<int> for Value is Value::Number(n.into())
+            if src == "bool":
+                return "Bool"
+            if src in ("std::string::String", "str", "'_ str"):
+                return "String"
     return "?" + v[0]
